@@ -156,8 +156,11 @@ def _run(mod, ctx, replay, selftest):
         return 2
     # ---- 5. verdicts ------------------------------------------------------------------------------
     failing = {}
+    own = getattr(mod, "own_clause", None)
     for v in val["fails"]:
         tid, seq, clause = v[0], v[1], v[2]
+        if own and not own(clause):
+            continue        # clause of another property evaluated by a shared trace spec: reported by that property's check
         failing.setdefault(tid, []).append((seq, clause))
     findings = load_findings()
     known_hits = {}
